@@ -7,8 +7,8 @@ use std::cell::Cell;
 
 pub struct Meter;
 
-pub const CAP_SINGLE: usize = 1 << 30; // 1 GiB
-pub const CAP_LIVE: usize = 3 << 29; // 1.5 GiB per metered thread
+pub const CAP_SINGLE: usize = 256 << 20; // 256 MiB
+pub const CAP_LIVE: usize = 512 << 20; // 512 MiB per metered thread
 
 struct State {
     active: Cell<bool>,
